@@ -51,6 +51,19 @@ CLAIMED["C10"] = dict(
     technique="Lean 4 proof (simulation between SSA evaluation and strict register evaluation) + structural correspondence",
 )
 
+CLAIMED["C15"] = dict(
+    text="Lean theorems C15_build_reachable / C15_requests_reachable: in the circuit `build` produces from ANY well-formed builder "
+         "state (hence for every request sequence, any length) every gate except the two constant gates reaches an output "
+         "(mark phase = exactly the reachable set; compaction keeps exactly the marked gates; renumbering maps operands to "
+         "operands). PARTIAL: the clauses 'no AND gate has a constant/repeated operand', 'no duplicate AND gates with dedup on' "
+         "and the consequence for data-movement programs (0 AND gates) are stated (C15_and_normal_Statement, "
+         "C15_and_unique_Statement) but not yet proved; they are explored by scanning every circuit built from random request "
+         "sequences, the corpus and generated data-movement programs. Builder model tied to circuit.rs by structural correspondence.",
+    design_ref="DESIGN.md §6 C15",
+    note="trusted: as C04 (same builder model and correspondence); the scans are exploration, not proof",
+    technique="Lean 4 proof (reachability invariant of mark/compact/renumber) + structural correspondence + circuit scans",
+)
+
 NOT_YET = "not claimed yet: model/proof for this property is still being built in this session (see DESIGN.md §10 order of work)"
 
 
